@@ -20,6 +20,9 @@ FUNCS = {
                 ('stream_conserved', '%s == old(%s) + data' % (STREAM, STREAM)),
                 ('configuration_kept', 'length(self._peer_name) > 0 and self._config.modulate_target_ack_time is None'),
                 ('consumed_grows', 'length(ghost.rx_consumed) >= length(old(ghost.rx_consumed))'),
+                ('trace_grows', 'length(ghost.trace) >= length(old(ghost.trace))'),
+                ('in_sess_monotone', 'implies(old(self._in_sess), self._in_sess)'),
+                ('keepalive_rearmed_only_by_sending', 'implies(old(self._in_sess), ka_kept(self))'),
                 # until the first message has been taken off nothing at all has happened; afterwards the
                 # buffer as it stood on entry did start with a complete message
                 ('first_or_progressed',
@@ -39,6 +42,8 @@ FUNCS = {
              'implies(not p_ok(old(self._in_conn), old(self._Messenger__rx_buf) + data), '
              'self._Messenger__rx_buf == old(self._Messenger__rx_buf) + data and ghost.trace == old(ghost.trace) and '
              'ghost.rx_consumed == old(ghost.rx_consumed))', ['C07']),
+            # C14: received octets alone never postpone the keepalive this endpoint owes its peer
+            ('keepalive_rearmed_only_by_sending', 'implies(old(self._in_sess), ka_kept(self))', ['C14']),
             # every complete message in the buffer has been acted on: what is kept is not (yet) a complete message
             ('complete_messages_acted_on',
              'closed(self) or length(self._Messenger__rx_buf) == 0 or '
